@@ -8,12 +8,13 @@
 ROOT=$(cd "$(dirname "$0")/.." && pwd)
 COQ=$ROOT/coq
 MUT=${MUT:-/tmp/pw/tr/mut}
-REPO_SRC=${REPO_SRC:-/repo/src}
+REPO_SRC=${REPO_SRC:-/tmp/pw/src0/src}   # frozen copy of the sources (/repo/src is patched concurrently)
 mkdir -p "$MUT"
 fail=0
 
-run_case() {  # name expected(ok|broken|terr) old new
-  local name=$1 expect=$2 old=$3 new=$4 d=$MUT/$1
+run_case() {  # name expected(ok|broken|terr) old new [w]    (w: also compile Proofs/TermTieW.v)
+  local name=$1 expect=$2 old=$3 new=$4 withw=$5 d=$MUT/$1
+  if [ -n "$CASES" ] && ! echo " $CASES " | grep -q " $name "; then return; fi   # CASES="a b c": run a subset
   rm -rf "$d"; mkdir -p "$d/gen" "$d/coq"
   cp -r "$REPO_SRC" "$d/src"
   if [ -n "$old" ]; then
@@ -39,15 +40,25 @@ PY
     sed 's/^From Avt Require Import Oracles.Step Proofs.Inv Proofs.TermEasy Gen.TermFns\.$/From Avt Require Import Oracles.Step Proofs.Inv Proofs.TermEasy. From AvtMut Require Import TermFns./' \
       "$COQ/Proofs/TermTie.v" > "$d/coq/TermTie.v"
     grep -q "From AvtMut Require Import TermFns" "$d/coq/TermTie.v" || { echo "[$name] cannot redirect the import"; fail=1; return; }
+    sed 's/^From Avt Require Import Oracles.Step Proofs.Inv Proofs.TermEasy Gen.TermFns Proofs.TermTie Proofs.InvStep\.$/From Avt Require Import Oracles.Step Proofs.Inv Proofs.TermEasy Proofs.InvStep. From AvtMut Require Import TermFns TermTie./' \
+      "$COQ/Proofs/TermTieW.v" > "$d/coq/TermTieW.v"
+    grep -q "From AvtMut Require Import TermFns TermTie" "$d/coq/TermTieW.v" || { echo "[$name] cannot redirect the import (W)"; fail=1; return; }
+    sed 's/^From Avt Require Import Oracles.Step Proofs.Inv Proofs.TermEasy Gen.TermFns Proofs.TermTie Proofs.InvStep$/From Avt Require Import Oracles.Step Proofs.Inv Proofs.TermEasy Proofs.InvStep. From AvtMut Require Import TermFns TermTie TermTieW. From Avt Require Import Proofs.Inv/; s/^  Proofs.TermTieW\.$/./' \
+      "$COQ/Proofs/TermTieX.v" > "$d/coq/TermTieX.v"
+    : > "$d/coq/tiew.log"
     ( cd "$d/coq" && timeout 300 coqc -w -notation-overridden,-ambiguous-paths -Q "$COQ" Avt -Q . AvtMut TermFns.v > fns.log 2>&1 \
-      && timeout 900 coqc -w -notation-overridden,-ambiguous-paths -Q "$COQ" Avt -Q . AvtMut TermTie.v > tie.log 2>&1 )
+      && timeout 900 coqc -w -notation-overridden,-ambiguous-paths -Q "$COQ" Avt -Q . AvtMut TermTie.v > tie.log 2>&1 \
+      && { [ -z "$withw" ] || { timeout 1500 coqc -w -notation-overridden,-ambiguous-paths -Q "$COQ" Avt -Q . AvtMut TermTieW.v > tiew.log 2>&1 \
+                                 && timeout 900 coqc -w -notation-overridden,-ambiguous-paths -Q "$COQ" Avt -Q . AvtMut TermTieX.v >> tiew.log 2>&1; }; } )
     if [ $? -eq 0 ]; then
-      got=ok; echo "[$name]   TermTie.v compiles ($(grep -c 'Closed under the global context' "$d/coq/tie.log") theorems closed under the global context)"
+      got=ok; echo "[$name]   TermTie.v${withw:+, TermTieW.v and TermTieX.v} compile ($(cat "$d/coq/tie.log" "$d/coq/tiew.log" | grep -c 'Closed under the global context') theorems closed under the global context)"
     else
       got=broken
-      cat "$d/coq/fns.log" "$d/coq/tie.log" 2>/dev/null | grep -A12 '^File' | head -16 | sed "s/^/[$name]   /"
-      ln=$(grep -o 'TermTie.v", line [0-9]*' "$d/coq/tie.log" | head -1 | grep -o '[0-9]*$')
-      [ -n "$ln" ] && echo "[$name]   failing obligation: $(head -n "$ln" "$d/coq/TermTie.v" | grep -E '^(Lemma|Theorem) ' | tail -1 | cut -c1-100)"
+      cat "$d/coq/fns.log" "$d/coq/tie.log" "$d/coq/tiew.log" 2>/dev/null | grep -A12 '^File' | head -16 | cut -c1-200 | sed "s/^/[$name]   /"
+      for tf in TermTie TermTieW TermTieX; do
+        ln=$(cat "$d/coq/tie.log" "$d/coq/tiew.log" | grep -o "$tf.v\", line [0-9]*" | head -1 | grep -o '[0-9]*$')
+        [ -n "$ln" ] && echo "[$name]   failing obligation ($tf.v): $(head -n "$ln" "$d/coq/$tf.v" | grep -E '^(Lemma|Theorem) ' | tail -1 | cut -c1-100)"
+      done
     fi
   fi
   local verdict=PASS
@@ -55,7 +66,7 @@ PY
   echo "[$name] expected=$expect got=$got  ($(( $(date +%s) - t0 ))s)  $verdict"
 }
 
-run_case baseline ok "" ""
+run_case baseline ok "" "" w
 run_case m1_cursor_down_ge broken \
   'let new_y = if self.cursor.row > self.bottom_margin {' 'let new_y = if self.cursor.row >= self.bottom_margin {'
 run_case m2_to_col_no_minus1 broken \
@@ -90,8 +101,29 @@ run_case m10_ri_underflow broken \
   '} else if self.cursor.row > 0 {
             self.do_move_cursor_to_row(self.cursor.row - 1);' '} else if self.cursor.row >= 0 {
             self.do_move_cursor_to_row(self.cursor.row - 1);'
+run_case w1_print_wrap_col broken \
+  'if next_col >= self.cols {
+            self.buffer.print((self.cols - 1, self.cursor.row), cell);' 'if next_col > self.cols {
+            self.buffer.print((self.cols - 1, self.cursor.row), cell);' w
+run_case w2_ed_above_dirty broken \
+  'self.dirty_lines.extend(0..self.cursor.row + 1);' 'self.dirty_lines.extend(0..self.cursor.row);' w
+run_case w3_ech_mode broken \
+  'EraseMode::NextChars(n),' 'EraseMode::FromCursorToEndOfLine,' w
+run_case w4_decrst_order broken \
+  'self.switch_to_primary_buffer();
+                    self.restore_cursor();
+                    self.reflow();' 'self.restore_cursor();
+                    self.switch_to_primary_buffer();
+                    self.reflow();' w
+run_case w5_rep_col broken \
+  'let char = self.buffer[(self.cursor.col - 1, self.cursor.row)].char();' 'let char = self.buffer[(self.cursor.col, self.cursor.row)].char();' w
 run_case e1_equivalent_no_max ok \
   'row = (top + row).max(top).min(bottom);' 'row = (top + row).min(bottom);'
+run_case t2_untranslatable_w terr \
+  'self.buffer.wrap(self.cursor.row);
+                self.scroll_up_in_region(1);' 'self.buffer.wrap(self.cursor.row);
+                self.buffer.clear_all();
+                self.scroll_up_in_region(1);'
 run_case t1_untranslatable terr \
   'fn cr(&mut self) {
         self.do_move_cursor_to_col(0);' 'fn cr(&mut self) {
